@@ -53,3 +53,37 @@ def groupPlan (existing : List Nat) (stored : List (Nat × Option (Option Nat)))
      | none => none))
 
 end TmVerif.LoaderDecode
+
+namespace TmVerif.LoaderDecode
+
+/-- What `reload_server` compares: declared capacity (memory, cpu, disk), partition label, own trait
+    mask and parent bucket. -/
+structure SrvAttrs where
+  cap : Int × Int × Int
+  label : Nat
+  traits : Nat
+  parent : Nat
+  deriving DecidableEq, Repr
+
+inductive Reload
+  | loadNew      -- never loaded: `load_server`
+  | removed      -- record gone or empty: `remove_server` + the placements of its instances deleted
+  | same         -- nothing changed: the object is kept
+  | replaced     -- something changed: removed and loaded as new (placements restored if it had instances)
+  deriving DecidableEq, Repr
+
+/-- `Loader.reload_server`: `cur` = the loaded server, `rec` = what the stored record decodes to
+    (`none`: no node / no data). -/
+def reloadDecision (cur : Option SrvAttrs) (rec : Option SrvAttrs) : Reload :=
+  match cur, rec with
+  | none, _ => .loadNew
+  | some _, none => .removed
+  | some c, some r => if c = r then .same else .replaced
+
+/-- The attributes of the server the master holds after the reload (`none`: not loaded). -/
+def reloadResult (cur : Option SrvAttrs) (rec : Option SrvAttrs) : Option SrvAttrs :=
+  match reloadDecision cur rec with
+  | .same => cur
+  | _ => rec
+
+end TmVerif.LoaderDecode
